@@ -425,7 +425,8 @@ func extractReturns(repo, gen, facts string) {
 	dbUpdate, dbBatch := need("DbImpl", "Update"), need("DbImpl", "Batch")
 	in, out := c.occurrences(dbUpdate, "listener", c.insideOnCommit)
 	rf.Flags["txCompleteOnlyOnCommit"] = in >= 1 && out == 0
-	rf.Flags["batchHasNoTxComplete"] = !strings.Contains(c.text(dbBatch.Body), "txCompleteListeners")
+	bin, bout := c.occurrences(dbBatch, "listener", c.insideOnCommit)
+	rf.Flags["batchTxCompleteOnlyOnCommit"] = bin >= 1 && bout == 0
 	rf.Flags["updateRunsPreCommit"] = c.siteByCall(dbUpdate, "ctx.runPreCommitActions()") == "propagate"
 	rf.Flags["batchRunsPreCommit"] = c.siteByCall(dbBatch, "ctx.runPreCommitActions()") == "propagate"
 	rf.Flags["updateReturnsBodyError"] = c.siteByCall(dbUpdate, "err := fn(ctx)") == "propagate"
